@@ -11,9 +11,11 @@ def drive(sc):
     trace = []
     e, _, _ = eval_grad(sc, "both")
     trace.append(e)
-    if not sc["merged"] or True:
-        e2, _, _ = eval_grad(sc, "split")
-        trace.append(e2)
+    e2, _, _ = eval_grad(sc, "split")
+    trace.append(e2)
+    if not any(sc["nanF"]) and not any(any(p) for p in sc["nanP"]):
+        e3, _, _ = eval_grad(sc, "near")
+        trace.append(e3)
     return trace, features(sc, e)
 
 
